@@ -821,6 +821,34 @@ def run_terms(ctx) -> RuleResult:
                         f"todict stores '{vtext[:60]}' instead of the coefficient array: converted values lose the coefficient "
                         f"dtype", construct="todict: coefficient converted"))
     if t == 0:
+        # dict(zip(<exponent tuples>, self.coefficients))
+        for path in ctx.paths(module, func, max_iter=1):
+            last = path[-1]
+            if last.kind != "return" or last.node.value is None:
+                continue
+            value = strip_tags(last.expand(last.node.value))
+            if not (isinstance(value, ast.Call) and isinstance(value.func, ast.Name) and value.func.id == "dict" and len(value.args) == 1
+                    and isinstance(value.args[0], ast.Call) and isinstance(value.args[0].func, ast.Name)
+                    and value.args[0].func.id == "zip" and len(value.args[0].args) == 2):
+                continue
+            keys_arg, vals_arg = value.args[0].args
+            if "πself.exponents" not in U(keys_arg):
+                continue
+            t += 1
+            filtered = any(isinstance(n, ast.comprehension) and n.ifs for n in ast.walk(keys_arg)) or \
+                any(isinstance(n, ast.Call) and isinstance(n.func, ast.Name) and n.func.id == "filter" for n in ast.walk(value))
+            result.ob("todict keeps every term (no filter)", not filtered, module.loc(last.orig), U(keys_arg)[:80])
+            if filtered:
+                result.add(Finding("R-TERMS", module, "ndpoly.todict", last.node,
+                                   "todict filters the exponent rows it zips with the coefficients: terms are dropped or mis-paired",
+                                   construct="todict: terms filtered"))
+            plain = U(vals_arg) == "πself.coefficients"
+            result.ob("todict stores the coefficient array itself", plain, module.loc(last.orig), U(vals_arg)[:60])
+            if not plain:
+                result.add(Finding("R-TERMS", module, "ndpoly.todict", last.node,
+                                   f"todict stores '{U(vals_arg)[:60]}' instead of the coefficient arrays: converted values lose the "
+                                   f"coefficient dtype", construct="todict: coefficient converted"))
+    if t == 0:
         raise AnalysisError("ndpoly.todict: neither a dict comprehension nor an accumulate loop over the terms found")
     result.floor = 4
     return result
